@@ -18,7 +18,7 @@ VARIANTS = [
     M('C08', 'value-interpolated-into-literal', E(DR, "        whereclause = ('' if include_nulls\n                       else 'WHERE %s IS NOT NULL' % colname)", "        whereclause = ('' if include_nulls\n                       else \"WHERE %s <> '%s'\" % (colname, tablename + colname))"),
       rule='C08-SQLQ', key='get_database_unique_values'),
     M('C08', 'new-unguarded-strptime', E(DR, "    def db_value_to_datetime(self, value):\n        return value\n\n    def default_schema(self):", "    def db_value_to_datetime(self, value):\n        return datetime.datetime.strptime(value, '%Y-%m-%d')\n\n    def default_schema(self):"),
-      rule='C08-EXC', key='db_value_to_datetime'),
+      rule='C08-EXC', key='strptime(value)'),
     M('C08', 'refactor-sql-built-in-two-steps', E(DR, "        sql = ('SELECT COUNT(*) FROM %s WHERE %s IS NOT NULL'\n               % (tablename, self.quoted(colname)))", "        qname = self.quoted(colname)\n        cond = '%s IS NOT NULL' % qname\n        sql = 'SELECT COUNT(*) FROM %s WHERE %s' % (tablename, cond)"),
       kind='refactor'),
     M('C08', 'refactor-fstring-template', E(DR, "        sql = 'SELECT COUNT(*) FROM %s' % tablename\n        return self.execute_scalar(sql)", "        sql = f'SELECT COUNT(*) FROM {tablename}'\n        return self.execute_scalar(sql)"),
